@@ -91,6 +91,15 @@ def r2_2_message_type(ctx, prog):
     ctx.ob("R2.2", "method-range", okm, "MessageMethod::try_from tests value & 0xF000", info["where"])
 
 
+def _unconv(t):
+    """the tree without lossless integer conversions (u16::from(x), x.into(), `as` casts are already transparent)"""
+    if isinstance(t, tuple):
+        if len(t) == 2 and isinstance(t[0], str) and re.match(r"^(num|u8|u16|u32|u64|usize|T)::(from|into)$", t[0]):
+            return _unconv(t[1])
+        return tuple(_unconv(x) for x in t)
+    return t
+
+
 def r2_3_layouts(ctx, prog, rule="R2.3"):
     ctx.rule(rule, "field layouts as expression trees: ERROR-CODE (class = byte 2 & 0x07, number = byte 3, code = class*100 + "
                      "number; bytes 0-1 written as zero), ICMP (type << 9 | code; >> 9 and & 0x1ff), EVEN-PORT 0x80")
@@ -104,13 +113,32 @@ def r2_3_layouts(ctx, prog, rule="R2.3"):
         r = C.expr_of(pa, pa.ret)
         s = repr(r)
         found = True
-        ok = "('op:Add', ('op:Mul', ('op:BitAnd', 'top:raw_value[2]', 7), 100), 'top:raw_value[3]')" in s
+        ok = "('op:Add', ('op:Mul', ('op:BitAnd', 'top:raw_value[2]', 7), 100), 'top:raw_value[3]')" in repr(_unconv(r))
+        # the bounds the accepted path has established on class and number, from range tests and plain comparisons
+        CLS, NUM = ("op:BitAnd", "top:raw_value[2]", 7), "top:raw_value[3]"
+        bounds = {repr(CLS): [None, None], repr(NUM): [0, None]}
         rngs = {}
         for e in pa.calls:
             if "contains" in e[1]:
                 a = C.expr_of(pa, e[2])
                 rngs[repr(a[1])] = a[0]
-        okr = rngs.get(repr(("op:BitAnd", "top:raw_value[2]", 7))) == ("RangeInclusive::new", 3, 6) and rngs.get(repr("top:raw_value[3]")) == ("RangeInclusive::new", 0, 99)
+                got = pa.choice(r"%s$" % re.escape(e[4].split("@")[-1]))
+                k = repr(_unconv(a[1]))
+                if k in bounds and got == 1 and isinstance(a[0], tuple) and a[0][0] == "RangeInclusive::new":
+                    bounds[k] = [a[0][1], a[0][2]]
+        for op, a, b, v in pa.guards():
+            k = repr(_unconv(a))
+            if k in bounds and isinstance(b, int):
+                if (op, v) in (("Gt", 0), ("Le", 1)):
+                    bounds[k][1] = b
+                elif (op, v) in (("Ge", 0), ("Lt", 1)):
+                    bounds[k][1] = b - 1
+                elif (op, v) in (("Lt", 0), ("Ge", 1)):
+                    bounds[k][0] = b
+                elif (op, v) in (("Le", 0), ("Gt", 1)):
+                    bounds[k][0] = b + 1
+        okr = bounds[repr(CLS)] == [3, 6] and bounds[repr(NUM)] == [0, 99]
+        rngs = {"class": bounds[repr(CLS)], "number": bounds[repr(NUM)]}
         ctx.ob(rule, "error-code:decode-ranges", okr, "class / number range tests: %s" % {k[:40]: v for k, v in rngs.items()}, info["where"])
         ctx.ob(rule, "error-code:decode", ok, "decoded code = %s" % show(r)[:220], info["where"])
         break
@@ -319,13 +347,17 @@ def r2_6_address_layout(ctx, prog, rule="R2.6"):
         n += 1
         fam = int(sw[0][1]) if len(sw) == 1 and sw[0][0] == "top:buffer[1]" and str(sw[0][1]).isdigit() else None
         want = fam_len.get(fam)
-        ok = want is not None and reads == {(1, 2), (2, 4), (4, want)}
+        # exactly the bytes 1 .. size are read (family, port, address), however the reads are split
+        read_bytes = set()
+        for lo, hi in reads:
+            read_bytes |= set(range(lo, hi)) if hi is not None else {lo, 10 ** 6}
+        ok = want is not None and read_bytes == set(range(1, want))
         if ok:
             val = r[1]
-            ok = val[0] == "tuple" and val[2] == want and val[1][0] == "SocketAddr::new" and "read_u16" in repr(val[1][2]) \
-                and repr(("Range", 2, 4)) in repr(val[1][2]) and "IpAddr::from" in repr(val[1][1])
+            ok = val[0] == "tuple" and val[2] == want and val[1][0] == "SocketAddr::new" and bytesem.be_value(val[1][2]) == (2, 4) \
+                and "IpAddr::from" in repr(val[1][1])
             cp = [C.expr_of(pa, e[2]) for e in pa.calls if re.search(r"clone_from_slice$|copy_from_slice$", e[1])]
-            ok = ok and len(cp) == 1 and cp[0][1][0][2] == ("Range", 4, want)
+            ok = ok and len(cp) == 1 and bytesem.slice_view(cp[0][1]) == (4, want)
         ctx.ob(rule, "reader:family=%s" % fam, ok, "selector %s, reads %s, returns %s" % ([(show(a), b) for a, b in sw], sorted(reads, key=str), show(r)[:120]),
                info["where"], replay=None if ok else pa.describe())
     ctx.floor(rule, "reader families", n, 2)
